@@ -352,6 +352,124 @@ Theorem C06_js_layout_open_append_clear_reopen :
                 c_keypair c3 = kp))).
 Proof. exact js_open_append_clear_reopen. Qed.
 
+(* Tie of small pure EXPRESSIONS to the source, regenerated on every run: tools/srcfns.py parses, in src/oplog/mod.rs,
+   build_len_and_info_header (returned word with its two `let x: u32 = if x { K } else { 0 }` inlined; the panic guard with MASK =
+   3u32.rotate_right(2) folded), validate_leader (`buffer.len() < 8`, `combined >> 2`, `combined & 1 == 1`, `combined & 2 == 2`,
+   `len == 0 || data_buff.len() < len`, the bounds of `&buffer[CRC_SIZE..LEADER_SIZE + len]`), get_current_header_bit,
+   get_next_header_oplog_slot_and_bit_value (condition and the two (slot, bit) results, the slots replaced by the discriminants of
+   `enum OplogSlot`), and in src/core.rs should_flush_bitfield_and_tree_and_oplog (condition, what each branch assigns to
+   skip_flush_count, what it returns) into SrcFns.v, as expressions over named variables (FnDesc.v; meaning pinned by
+   C06_source_functions_meaning). `tied_fn None _` (not found in the recognisable form) is True. For every expression that was
+   found: in the stated range of the arguments its value is the model's function — the leader word is len_field, the guard is
+   frame's, the model's WHOLE validate_leader is the program C06_leader_of_source assembled from the seven expressions (and the
+   source's slice is in bounds whenever it is reached), current_bit / next_slot are the source's, and maybe_flush with the native
+   cadence decides and updates skip_flush_count as the source does. The named constants in the expressions have the model's
+   values, which C06_source_constants ties to the source. *)
+From HC Require Import FnDesc SrcFns.
+From HC Require FnTie.
+Local Open Scope string_scope.
+Local Open Scope list_scope.
+Local Open Scope N_scope.
+
+(* data_length, header_bit, partial_bit of build_len_and_info_header *)
+Definition C06_env_word (n : N) (hb pb : bool) : string -> N :=
+  env_of [("data_length", n); ("header_bit", N.b2n hb); ("partial_bit", N.b2n pb)].
+(* buffer.len(), the second little-endian u32 of the buffer, the length of what follows the 8 leader bytes *)
+Definition C06_env_leader (buflen combined datalen : N) : string -> N :=
+  env_of [("buffer.len()", buflen); ("combined", combined); ("data_buff.len()", datalen); ("CRC_SIZE", 4); ("LEADER_SIZE", 8)].
+Definition C06_env_bits (b0 b1 : bool) : string -> N :=
+  env_of [("self.header_bits[0]", N.b2n b0); ("self.header_bits[1]", N.b2n b1);
+          ("header_bits[0]", N.b2n b0); ("header_bits[1]", N.b2n b1); ("HEADER_SIZE", HEADER_SIZE)].
+Definition C06_env_flush (c : core) : string -> N :=
+  env_of [("self.skip_flush_count", c_skip c); ("self.oplog.entries_byte_length", ol_entries_bytes (c_oplog c));
+          ("MAX_OPLOG_ENTRIES_BYTE_SIZE", MAX_OPLOG_ENTRIES_BYTE_SIZE)].
+
+(* validate_leader of src/oplog/mod.rs read as a program over its seven expressions: the stored checksum is the first
+   little-endian u32, `combined` the second, `data_buff` the rest; the checksum is computed over buffer[lo..hi] *)
+Definition C06_leader_of_source (cr : crypto) (emin elen ebit epart enof elo ehi : rexpr) (buf : bytes) : option leader :=
+  if truthy (reval (C06_env_leader (len buf) 0 0) emin) then None
+  else
+    let stored := le_val (firstn 4 buf) in
+    let combined := le_val (firstn 4 (skipn 4 buf)) in
+    let data := skipn 8 buf in
+    let env := C06_env_leader (len buf) combined (len data) in
+    if truthy (reval env enof) then None
+    else
+      let lo := reval env elo in
+      let hi := reval env ehi in
+      if cr_crc cr (firstn (N.to_nat (hi - lo)) (skipn (N.to_nat lo) buf)) =? stored
+      then Some (mkLeader (truthy (reval env ebit)) (truthy (reval env epart)) (reval env elen) data)
+      else None.
+
+Theorem C06_source_functions :
+  (* build_len_and_info_header: the word for a length that passed the guard; the guard on any u32 length *)
+  tied_fn src_leader_word (fun e => forall n hb pb, n < 1073741824 -> reval (C06_env_word n hb pb) e = len_field n hb pb) /\
+  tied_fn src_leader_guard (fun e => forall n, n < 4294967296 ->
+     truthy (reval (C06_env_word n false false) e) = (1073741824 <=? n)) /\
+  (* validate_leader, expression by expression *)
+  tied_fn src_leader_min_len (fun e => forall cr buf,
+     truthy (reval (C06_env_leader (len buf) 0 0) e) = true -> validate_leader cr buf = None) /\
+  tied_fn src_leader_len (fun e => forall bl combined dl, reval (C06_env_leader bl combined dl) e = combined / 4) /\
+  tied_fn src_leader_header_bit (fun e => forall bl combined dl,
+     reval (C06_env_leader bl combined dl) e = N.b2n (N.odd combined)) /\
+  tied_fn src_leader_partial_bit (fun e => forall bl combined dl,
+     reval (C06_env_leader bl combined dl) e = N.b2n (N.odd (combined / 2))) /\
+  tied_fn src_leader_no_frame (fun e => forall bl combined dl,
+     truthy (reval (C06_env_leader bl combined dl) e) = ((combined / 4 =? 0) || (dl <? combined / 4))) /\
+  tied_fn src_leader_zone_lo (fun e => forall bl combined dl, reval (C06_env_leader bl combined dl) e = 4) /\
+  tied_fn src_leader_zone_hi (fun e => forall bl combined dl, reval (C06_env_leader bl combined dl) e = 8 + combined / 4) /\
+  (* validate_leader as a whole, and its slice is in bounds *)
+  tied_fn src_leader_min_len (fun emin => tied_fn src_leader_len (fun elen => tied_fn src_leader_header_bit (fun ebit =>
+  tied_fn src_leader_partial_bit (fun epart => tied_fn src_leader_no_frame (fun enof => tied_fn src_leader_zone_lo (fun elo =>
+  tied_fn src_leader_zone_hi (fun ehi =>
+    (forall cr buf, validate_leader cr buf = C06_leader_of_source cr emin elen ebit epart enof elo ehi buf) /\
+    (forall buf, let combined := le_val (firstn 4 (skipn 4 buf)) in
+                 let env := C06_env_leader (len buf) combined (len (skipn 8 buf)) in
+       truthy (reval (C06_env_leader (len buf) 0 0) emin) = false -> truthy (reval env enof) = false ->
+       reval env elo <= reval env ehi <= len buf)))))))) /\
+  (* the header slot automaton *)
+  tied_fn src_current_bit (fun e => forall b0 b1, reval (C06_env_bits b0 b1) e = N.b2n (current_bit (b0, b1))) /\
+  tied_fn src_next_slot_cond (fun c => tied_fn src_next_slot_then_slot (fun ts => tied_fn src_next_slot_then_bit (fun tb =>
+  tied_fn src_next_slot_else_slot (fun es => tied_fn src_next_slot_else_bit (fun eb =>
+    forall b0 b1, let env := C06_env_bits b0 b1 in
+      fst (next_slot (b0, b1)) = if truthy (reval env c) then (reval env ts, truthy (reval env tb))
+                                 else (reval env es, truthy (reval env eb))))))) /\
+  (* should_flush_bitfield_and_tree_and_oplog: the `then` branch returns true, the other false; decision and counter *)
+  tied_fn src_flush_cond (fun fc => tied_fn src_flush_skip_then (fun st => tied_fn src_flush_skip_else (fun se =>
+  tied_fn src_flush_result_then (fun rt => tied_fn src_flush_result_else (fun re =>
+    forall cr c w, let env := C06_env_flush c in
+      truthy (reval env rt) = true /\ truthy (reval env re) = false /\
+      maybe_flush cr None c w =
+      (if truthy (reval env fc) then (put_skip (reval env st) ;;; flush_all cr false) else put_skip (reval env se)) c w))))).
+Proof. exact FnTie.source_oplog_functions_are_the_models. Qed.
+
+(* what the vocabulary means (the definitions live in FnDesc.v; this pins their meaning): unbounded naturals, booleans as 0 / 1 *)
+Theorem C06_source_functions_meaning :
+  (forall A (P : A -> Prop), tied_fn None P <-> True) /\ (forall A e (P : A -> Prop), tied_fn (Some e) P <-> P e) /\
+  (forall env n, reval env (RLit n) = n) /\ (forall env x, reval env (RVar x) = env x) /\
+  (forall env a, reval env (RNot a) = N.b2n (reval env a =? 0)) /\
+  (forall env c a b, reval env (RIf c a b) = if reval env c =? 0 then reval env b else reval env a) /\
+  (forall env a b, reval env (RBin OShl a b) = N.shiftl (reval env a) (reval env b)) /\
+  (forall env a b, reval env (RBin OShr a b) = N.shiftr (reval env a) (reval env b)) /\
+  (forall env a b, reval env (RBin OAnd a b) = N.land (reval env a) (reval env b)) /\
+  (forall env a b, reval env (RBin OOr a b) = N.lor (reval env a) (reval env b)) /\
+  (forall env a b, reval env (RBin OXor a b) = N.lxor (reval env a) (reval env b)) /\
+  (forall env a b, reval env (RBin OAdd a b) = reval env a + reval env b) /\
+  (forall env a b, reval env (RBin OSub a b) = reval env a - reval env b) /\
+  (forall env a b, reval env (RBin OMul a b) = reval env a * reval env b) /\
+  (forall env a b, reval env (RBin OEq a b) = N.b2n (reval env a =? reval env b)) /\
+  (forall env a b, reval env (RBin ONe a b) = N.b2n (negb (reval env a =? reval env b))) /\
+  (forall env a b, reval env (RBin OLt a b) = N.b2n (reval env a <? reval env b)) /\
+  (forall env a b, reval env (RBin OLe a b) = N.b2n (reval env a <=? reval env b)) /\
+  (forall env a b, reval env (RBin OGt a b) = N.b2n (reval env b <? reval env a)) /\
+  (forall env a b, reval env (RBin OGe a b) = N.b2n (reval env b <=? reval env a)) /\
+  (forall env a b, reval env (RBin OLAnd a b) = N.b2n (negb (reval env a =? 0) && negb (reval env b =? 0))) /\
+  (forall env a b, reval env (RBin OLOr a b) = N.b2n (negb (reval env a =? 0) || negb (reval env b =? 0))) /\
+  (forall n, truthy n = negb (n =? 0)) /\
+  (forall x, env_of [] x = 0) /\
+  (forall y v r x, env_of ((y, v) :: r) x = if String.eqb y x then v else env_of r x).
+Proof. exact FnTie.fn_desc_meaning. Qed.
+
 Print Assumptions C06_header_roundtrip.
 Print Assumptions C06_entry_roundtrip.
 Print Assumptions C06_entry_encodes.
@@ -378,3 +496,5 @@ Print Assumptions JsLayoutEx.toy_unfinished_batch.
 Print Assumptions JsLayoutEx.toy_slot1_only.
 Print Assumptions JsLayoutEx.open_result_is_YInv_refuted.
 Print Assumptions JsLayoutEx.JsDisk_reflag.
+Print Assumptions C06_source_functions.
+Print Assumptions C06_source_functions_meaning.
